@@ -1,6 +1,7 @@
 (* C09 — harness cases: a history of operations on the real Store / Checker / Monitor with what the
    implementation answered at every observing operation. code 1: the model's answer differs;
-   code 2 (latest), 10 (alert although fresh), 11 (more than one alert between two adds), 12 (cadence):
+   code 2 (latest), 10 (alert although fresh), 11 (more than one alert between two adds), 12 (cadence),
+   13 (an expiry seen by CheckPeers was not reported):
    the implementation's own answers fail the boolean form of the property, computed from the history only. *)
 From V Require Import Base.Common Model.C09_Metrics.
 Open Scope Z_scope.
@@ -94,29 +95,55 @@ Definition alerts_fresh_okb (now : Z) (past : list op) (obs : list alert_t) : bo
 Definition alerts_once_okb (past : list op) (obs : list alert_t) : bool :=
   forallb (fun a => (alerts_since_add (fst a) past <=? 1)%nat) obs.
 
+(* an expiry seen by CheckPeers is reported: for a checked (name, peer) whose most recent metric m is expired, that was
+   neither removed nor alerted for since m arrived, an alert is due now — as long as the accrual detector has no say
+   (fewer than 6 metrics ever added for the key) or says "failed" *)
+Fixpoint removed_since_add (k : key) (past : list op) : bool :=
+  match past with
+  | [] => false
+  | OAdd m :: r => if key_eqb (mkey m) k then false else removed_since_add k r
+  | ORemovePeer p :: r => N.eqb p (snd k) || removed_since_add k r
+  | _ :: r => removed_since_add k r
+  end.
+Fixpoint count_adds (k : key) (past : list op) : nat :=
+  match past with
+  | [] => 0%nat
+  | OAdd m :: r => ((if key_eqb (mkey m) k then 1 else 0) + count_adds k r)%nat
+  | _ :: r => count_adds k r
+  end.
+Fixpoint names_added (past : list op) : list N :=
+  match past with [] => [] | OAdd m :: r => mname m :: names_added r | _ :: r => names_added r end.
+Definition reported_okb (now : Z) (phi : list (key * bool)) (past : list op) (peers : list N) (obs : list alert_t) : bool :=
+  forallb (fun n => forallb (fun p =>
+    let k := (n, p) in
+    match last_add k past with
+    | Some m =>
+        if expired now m && negb (removed_since_add k past) && Nat.eqb (alerts_since_add k past) 0
+           && ((count_adds k past <? 6)%nat || phi_of phi k)
+        then (1 <=? alerts_for k obs)%nat else true
+    | None => true
+    end) peers) (names_added past).
+
 (* walks the history; returns the list of failed sub-property codes *)
-Fixpoint spec_walk (ops past : list op) (now : Z) (ps : pset) : list N :=
+Fixpoint spec_walk (ops past : list op) (now : Z) (ps : pset) (phi : list (key * bool)) : list N :=
   match ops with
   | [] => []
   | o :: r =>
       let past' := o :: past in
       (match o with
        | OLatest name obs => if latest_okb now ps past name obs then [] else [2%N]
-       | OCheckPeers _ obs | OCheckAll obs =>
+       | OCheckPeers peers obs =>
+           (if alerts_fresh_okb now past obs then [] else [10%N]) ++
+           (if alerts_once_okb past' obs then [] else [11%N]) ++
+           (if reported_okb now phi past peers obs then [] else [13%N])
+       | OCheckAll obs =>
            (if alerts_fresh_okb now past obs then [] else [10%N]) ++
            (if alerts_once_okb past' obs then [] else [11%N])
        | _ => [] end) ++
       spec_walk r past'
         (match o with OTick dt => now + dt | _ => now end)
         (match o with OPeerset p => p | _ => ps end)
-  end.
-
-(* S9 shape: a CheckPeers on a key holding >= 3 metrics whose latest is expired reports it more than once in that very pass *)
-Fixpoint count_adds (k : key) (past : list op) : nat :=
-  match past with
-  | [] => 0%nat
-  | OAdd m :: r => ((if key_eqb (mkey m) k then 1 else 0) + count_adds k r)%nat
-  | _ :: r => count_adds k r
+        (match o with OSetPhi k b => kput k b phi | _ => phi end)
   end.
 
 (* cadence: every publication is made strictly before the previous one expires; the stamped expiry is
@@ -151,7 +178,7 @@ Definition check_case (c : N * c09case) : list (N * N * N) :=
   match k with
   | CHist ops =>
       (if mrun ops ms0 then [] else [(id, 1%N, 0%N)]) ++
-      map (fun code => (id, code, 0%N)) (dedupN (spec_walk ops [] 0 PNone))
+      map (fun code => (id, code, 0%N)) (dedupN (spec_walk ops [] 0 PNone []))
   | CPing iv pubs =>
       (if ping_sched_okb iv pubs then [] else [(id, 1%N, 0%N)]) ++ (if ping_okb iv pubs then [] else [(id, 12%N, 0%N)])
   | CInformer ttl pubs =>
